@@ -84,12 +84,13 @@ pub fn prune_opts(i: usize) -> (String, PruneOptions) {
         ("instant-fast-repackall", d().instant_delete(true).fast_repack(true).repack_all(true).max_repack(LimitOption::Unlimited)),
         ("instant-noresize-uncompressed", d().instant_delete(true).no_resize(true).repack_uncompressed(true).max_repack(LimitOption::Unlimited)),
         ("kd23h-keeppack90-repackall", d().keep_pack(m90).repack_all(true).max_repack(LimitOption::Unlimited)),
+        ("instant-early-delete-index", d().instant_delete(true).early_delete_index(true).max_unused(LimitOption::Percentage(0)).max_repack(LimitOption::Unlimited)),
     ];
     let (n, o) = v.into_iter().nth(i).expect("prune option index");
     (n.to_string(), o)
 }
 pub const N_PRUNE_QUICK: usize = 10;
-pub const N_PRUNE_ALL: usize = 24;
+pub const N_PRUNE_ALL: usize = 25;
 
 #[derive(Clone, Debug, Serialize, Deserialize, PartialEq, Eq)]
 pub enum Act {
@@ -98,6 +99,9 @@ pub enum Act {
     BackupStale(usize),
     Forget(Vec<String>),
     Prune(usize),
+    /// forget and prune at once: the plan is made while the snapshot still exists but is told to
+    /// ignore it (`ignore_snaps`), then the snapshot is removed and the plan is executed
+    ForgetPrune(String, usize),
     Tick(i64),
     DupIndex,
     ListReversed,
@@ -233,6 +237,11 @@ impl SeqModel for C02 {
         for i in 0..self.n_prune {
             v.push(Act::Prune(i));
         }
+        for l in live.iter().take(3) {
+            for i in [0usize, 3, 6] {
+                v.push(Act::ForgetPrune(l.clone(), i));
+            }
+        }
         v.push(Act::Tick(3600));
         v.push(Act::Tick(24 * 3600));
         if s.nbackups < 5 {
@@ -255,6 +264,7 @@ impl SeqModel for C02 {
             Act::BackupStale(_) => "backup_stale".into(),
             Act::Forget(_) => "forget".into(),
             Act::Prune(_) => "prune".into(),
+            Act::ForgetPrune(..) => "forget_prune".into(),
             Act::Tick(_) => "tick".into(),
             Act::DupIndex => "dup_index".into(),
             Act::ListReversed => "list_reversed".into(),
@@ -340,11 +350,32 @@ impl SeqModel for C02 {
                     _ = n.pending.remove(l);
                 }
             }
-            Act::Prune(i) => {
-                let (name, opts) = prune_opts(*i);
+            Act::Prune(_) | Act::ForgetPrune(..) => {
+                let (i, labels): (usize, Vec<String>) = match a {
+                    Act::Prune(i) => (*i, vec![]),
+                    Act::ForgetPrune(l, i) => (*i, vec![l.clone()]),
+                    _ => unreachable!(),
+                };
+                let (name, mut opts) = prune_opts(i);
                 let repo = env.open().map_err(|e| err("open", e))?;
                 let before = index_packs(&self.raw, &s.store).unwrap_or_default();
+                let mut ids = Vec::new();
+                if !labels.is_empty() {
+                    let snaps = repo.get_all_snapshots().map_err(|e| err("get_all_snapshots", e))?;
+                    ids = snaps.iter().filter(|sn| labels.contains(&sn.label)).map(|sn| sn.id).collect();
+                    if ids.len() != labels.len() {
+                        return Err(("C02/forget/listing".into(), format!("snapshots {labels:?} not all listed")));
+                    }
+                    opts = opts.ignore_snaps(ids.clone());
+                }
                 let plan = repo.prune_plan(&opts).map_err(|e| err("prune_plan", e))?;
+                if !labels.is_empty() {
+                    repo.delete_snapshots(&ids).map_err(|e| err("forget", e))?;
+                    for l in &labels {
+                        _ = n.model.remove(l);
+                        _ = n.pending.remove(l);
+                    }
+                }
                 for k in plan.stats.debug.0.keys() {
                     rep.inc(&format!("todo:{:?}", k.todo));
                 }
